@@ -180,7 +180,7 @@ func main() {
 						if i%9 == 8 && c.env.Schema.Mutation != nil {
 							kind = ast.Mutation
 						}
-						op := opgen.Generate(c.env.Schema, opSeed, kind, opgen.Config{MaxDepth: 2 + i%4, MaxSel: 3 + i%3})
+						op := opgen.Generate(c.env.Schema, opSeed, kind, opgen.Config{MaxDepth: 2 + i%4, MaxSel: 3 + i%3, Defer: i%3 == 0, DeferProb: 0.4})
 						for k := 0; k < nFsets; k++ {
 							fs := FSet{Seed: uint64(opSeed)*16 + uint64(k), Profile: (i + k) % nProfiles}
 							cid := caseID{Probe: name, WantPct: pct, WantSd: c.wantSd, FSet: fs, Query: op.Query, OpName: op.OpName, Vars: op.Vars,
